@@ -48,6 +48,16 @@ class Val:
         self.k = k
 
 
+class FalsyVal(Val):
+    __slots__ = ()
+
+    def __bool__(self):
+        return False
+
+    def __len__(self):
+        return 0
+
+
 class MM(collections.abc.MutableMapping):
     """A retaining MutableMapping that is not a dict."""
     def __init__(self):
@@ -95,6 +105,11 @@ def execute(sc):
     fail = set(fspec.get('fail', []))
     durs = {int(k): v for k, v in fspec.get('durs', {}).items()}
     ddur = fspec.get('dur', 1.0)
+    # 'ret': what a successful invocation returns: 'val' (an object naming its invocation), 'none' (None: every
+    # invocation returns the same None, attributed to the key's first successful invocation) or 'falsy' (a Val
+    # that is falsy and of length 0)
+    ret = fspec.get('ret', 'val')
+    first_ok = {}
 
     async def user_func(k):
         inv_counter[0] += 1
@@ -114,6 +129,11 @@ def execute(sc):
                 ctl.log('FuncEnd', i=i, how='raise')
                 raise HExc(i)
             ctl.log('FuncEnd', i=i, how='ok')
+            first_ok.setdefault(k, i)
+            if ret == 'none':
+                return None
+            if ret == 'falsy':
+                return FalsyVal(i, k)
             return Val(i, k)
         except asyncio.CancelledError:
             ctl.log('FuncEnd', i=i, how='cancel')
@@ -210,6 +230,8 @@ def execute(sc):
             else:
                 if isinstance(v, Val):
                     ctl.log('CallEnd', c=c, kind='val', inv=v.inv, exctype='')
+                elif v is None and ret == 'none' and cs['k'] in first_ok:
+                    ctl.log('CallEnd', c=c, kind='val', inv=first_ok[cs['k']], exctype='')
                 else:
                     ctl.log('CallEnd', c=c, kind='val', inv=0, exctype=type(v).__name__)
 
